@@ -4,6 +4,8 @@ package dtlcp
 
 // Datagram-stack part of C03: edits on records inside datagrams and on whole datagrams.
 
+import "fmt"
+
 var c03StackKinds = []string{"ddrop", "ddup", "ddelay", "dtrunc"}
 
 func c03NDatagrams(base *vfPair, dir int) int {
@@ -30,7 +32,17 @@ func c03RecordLens(base *vfPair, dir int) []int {
 	return out
 }
 
+// c03CCSTamper remembers that the payload of a ChangeCipherSpec record was modified in flight
+// (cases run one at a time): direction and how many datagrams that side had sent by then.
+var c03CCSTamper struct {
+	set   bool
+	dir   int
+	nth   int
+	descr string
+}
+
 func c03Apply(opt *vfPairOpt, e c03Edit, applied *bool) {
+	c03CCSTamper.set = false
 	recIdx := 0
 	var stash []byte
 	opt.Hook = func(from, nth int, data []byte) []vfDelivery {
@@ -88,6 +100,10 @@ func c03Apply(opt *vfPairOpt, e c03Edit, applied *bool) {
 				if e.Off < len(raw) {
 					raw[e.Off] ^= e.Mask
 					*applied = true
+					if r.Typ == 20 && r.Epoch == 0 && e.Off >= vfRecHdrLen {
+						c03CCSTamper.set, c03CCSTamper.dir, c03CCSTamper.nth = true, from, nth
+						c03CCSTamper.descr = fmt.Sprintf("payload byte %d xor %#02x", e.Off-vfRecHdrLen, e.Mask)
+					}
 				}
 				out = append(out, raw...)
 			case "drop":
@@ -104,6 +120,12 @@ func c03Apply(opt *vfPairOpt, e c03Edit, applied *bool) {
 					*applied = true
 					out = append(out, raw[:e.Off]...)
 					return []vfDelivery{{Data: out}}
+				}
+				out = append(out, raw...)
+			case "addext":
+				if nr, ok := c03AddExt(raw, e.Off == 1); ok {
+					*applied = true
+					raw = nr
 				}
 				out = append(out, raw...)
 			case "inject":
@@ -125,6 +147,31 @@ func c03Apply(opt *vfPairOpt, e c03Edit, applied *bool) {
 	}
 }
 
-// c03StackCheck: on the datagram stack the byte-for-byte clause is decided by the independent
-// PRF over the messages as sent (an endpoint may discard a damaged copy and accept a retransmission).
-func c03StackCheck(r *vfPair) string { return "" }
+// c03StackCheck: on the datagram stack the byte-for-byte clause for handshake messages is decided
+// by the independent PRF over the messages as sent (an endpoint may discard a damaged copy and
+// accept a retransmission). The ChangeCipherSpec signal is covered by no transcript and no MAC, so
+// it is checked here: when its payload was modified in flight and the sender never sent that
+// flight again, the modified copy is the one the receiver acted on.
+func c03StackCheck(r *vfPair) string {
+	if !c03CCSTamper.set {
+		return ""
+	}
+	r.Sim.mu.Lock()
+	defer r.Sim.mu.Unlock()
+	resent := false
+	for _, s := range r.Sim.sent {
+		if s.From != c03CCSTamper.dir || s.Nth <= c03CCSTamper.nth {
+			continue
+		}
+		recs, _ := vfFrameDatagram(s.Data, 0)
+		for _, rc := range recs {
+			if rc.Typ == 20 && rc.Epoch == 0 {
+				resent = true
+			}
+		}
+	}
+	if resent {
+		return ""
+	}
+	return fmt.Sprintf("the ChangeCipherSpec record of side %d was modified in flight (%s) and never sent again, yet both endpoints completed: the signal the receiver accepted is not the one the sender sent", c03CCSTamper.dir, c03CCSTamper.descr)
+}
